@@ -73,7 +73,7 @@ func (r *scriptReader) Read(p []byte) (int, error) {
 
 func msgTR(m *rtcm.Message) string { return fmt.Sprintf("%d,%s", m.MessageType, hexs(m.RawData)) }
 
-// case: pipeline <script: step;step;...> <sinks: cap[s] | nil, comma separated ("s" = slow consumer)> <gomaxprocs> <tolerance ms> [rounds]
+// case: pipeline <script: step;step;...> <sinks: cap[s] | nil, comma separated ("s" = slow consumer, "S" = consumer that stays away for 2.5 s after its first message)> <gomaxprocs> <tolerance ms> [rounds]
 // obs:  ret=<0|1> sink0=<type,raw;...> sink1=... goroutines=<leaked count> [close=<ok|twice>] | hang | panic
 // rounds (default 1): the same AppCore processes the script that many times, one source after the other, as
 // AppCore.HandleMessages does when the input comes back; the sinks keep collecting.  With rounds > 1 the harness
@@ -89,9 +89,10 @@ func runPipeline(f []string, out *bufio.Writer) {
 	cfg := &jsonconfig.Config{TimeoutOnEOFMilliSeconds: uint(atoi(f[4])), WaitTimeOnEOFMilliseconds: 1}
 	var chans []chan rtcm.Message
 	type sink struct {
-		ch   chan rtcm.Message
-		slow bool
-		got  []string
+		ch    chan rtcm.Message
+		slow  bool
+		stall bool
+		got   []string
 	}
 	var sinks []*sink
 	for _, s := range strings.Split(f[2], ",") {
@@ -101,9 +102,10 @@ func runPipeline(f []string, out *bufio.Writer) {
 			continue
 		}
 		slow := strings.HasSuffix(s, "s")
-		c := make(chan rtcm.Message, atoi(strings.TrimSuffix(s, "s")))
+		stall := strings.HasSuffix(s, "S") // stays away from its channel for 2.5 s after its first message
+		c := make(chan rtcm.Message, atoi(strings.TrimSuffix(strings.TrimSuffix(s, "s"), "S")))
 		chans = append(chans, c)
-		sinks = append(sinks, &sink{ch: c, slow: slow})
+		sinks = append(sinks, &sink{ch: c, slow: slow, stall: stall})
 	}
 	before := runtime.NumGoroutine()
 	var wg sync.WaitGroup
@@ -122,6 +124,9 @@ func runPipeline(f []string, out *bufio.Writer) {
 					s.got = append(s.got, msgTR(&mm))
 					if s.slow {
 						time.Sleep(100 * time.Microsecond)
+					}
+					if s.stall && len(s.got) == 1 {
+						time.Sleep(2500 * time.Millisecond)
 					}
 				case <-stop:
 					// drain what is already queued
